@@ -50,6 +50,9 @@ func reuseUnixSocket(network, addr string) (any, error) {
 		if err != nil {
 			return nil, err
 		}
+		// FileListener/FilePacketConn make their own copy of the descriptor;
+		// ours would otherwise keep the socket open after its last user closed it
+		defer socketFile.Close()
 
 		// use copied fd to make new Listener or PacketConn, then replace
 		// it in the map so that future copies always come from the most
@@ -222,19 +225,11 @@ type unixListener struct {
 func (uln *unixListener) Close() error {
 	newCount := atomic.AddInt32(uln.count, -1)
 	if newCount == 0 {
-		file, err := uln.File()
-		var name string
-		if err == nil {
-			name = file.Name()
-		}
-		defer func() {
-			unixSocketsMu.Lock()
-			delete(unixSockets, uln.mapKey)
-			unixSocketsMu.Unlock()
-			if err == nil {
-				_ = syscall.Unlink(name)
-			}
-		}()
+		// the path comes from the socket's address; File() would duplicate the
+		// descriptor (keeping the socket open) and is named after the connection,
+		// not after the path
+		name := uln.Addr().String()
+		defer unlinkUnixSocket(uln.mapKey, name)
 	}
 	return uln.UnixListener.Close()
 }
@@ -248,21 +243,23 @@ type unixConn struct {
 func (uc *unixConn) Close() error {
 	newCount := atomic.AddInt32(uc.count, -1)
 	if newCount == 0 {
-		file, err := uc.File()
-		var name string
-		if err == nil {
-			name = file.Name()
-		}
-		defer func() {
-			unixSocketsMu.Lock()
-			delete(unixSockets, uc.mapKey)
-			unixSocketsMu.Unlock()
-			if err == nil {
-				_ = syscall.Unlink(name)
-			}
-		}()
+		name := uc.LocalAddr().String()
+		defer unlinkUnixSocket(uc.mapKey, name)
 	}
 	return uc.UnixConn.Close()
+}
+
+// unlinkUnixSocket forgets the unix socket that its last user has just closed and
+// removes its file (abstract sockets have none). Both happen under unixSocketsMu,
+// which Listen holds while it binds, so that the file of a socket that is being
+// bound anew at the same path is not the one that gets removed.
+func unlinkUnixSocket(mapKey, name string) {
+	unixSocketsMu.Lock()
+	defer unixSocketsMu.Unlock()
+	delete(unixSockets, mapKey)
+	if name != "" && name[0] != '@' {
+		_ = syscall.Unlink(name)
+	}
 }
 
 func (uc *unixConn) Unwrap() net.PacketConn {
